@@ -172,8 +172,9 @@ def apply_violations(r, mj, kinds):
     return raw, applied, bad_grid
 
 
-def classify_impl(raw, bad_grid, solve_and_simulate, r, meta, mj_for_init):
-    """-> (stage, kind, detail)"""
+def classify_impl(raw, bad_grid, solve_and_simulate, r, meta, mj_for_init, via_replace=False):
+    """-> (stage, kind, detail). `via_replace`: the specification is derived from the valid base model with
+    `Model.replace(<only the changed fields>)` instead of being constructed directly."""
     I = impl()
     from lcm import LinspaceGrid, LogspaceGrid, Model
     from lcm.entry_point import get_lcm_function
@@ -204,7 +205,22 @@ def classify_impl(raw, bad_grid, solve_and_simulate, r, meta, mj_for_init):
         for f in raw["functions"]:
             key = f["name"] if f["key_ok"] else (hash(f["name"]) % 89)
             funcs[key] = mkfunc(f["name"], f["args"], f["body"], f.get("stochastic", False), f.get("ints", True)) if f["value_ok"] else 3
-        model = Model(n_periods=raw["n_periods"], functions=funcs, choices=grids["choices"], states=grids["states"])
+        if via_replace:
+            from dsl import build_model
+
+            base = build_model(mj_for_init)
+            changed = {}
+            if raw["n_periods"] != mj_for_init["n_periods"]:
+                changed["n_periods"] = raw["n_periods"]
+            if list(funcs) != list(base.functions) or any(funcs[k] is not base.functions.get(k) for k in funcs):
+                changed["functions"] = funcs
+            for coll in ("choices", "states"):
+                bg = getattr(base, coll)
+                if list(grids[coll]) != list(bg) or any(grids[coll][k] is not bg.get(k) for k in grids[coll]):
+                    changed[coll] = grids[coll]
+            model = base.replace(**changed)
+        else:
+            model = Model(n_periods=raw["n_periods"], functions=funcs, choices=grids["choices"], states=grids["states"])
     except ModelInitilizationError as e:
         return "model", "ModelInit", str(e)[:100]
     except Exception as e:  # noqa: BLE001
@@ -270,7 +286,9 @@ def run_case(case):
         o = driver().call({"op": "validate_model", "model": mraw})
         want = {"accepted": ("accepted", "accepted"), "ModelInit": ("model", "ModelInit"), "ValueError": ("functions", "ValueError")}[o]
     supported = not applied
-    stage, kind, detail = classify_impl(raw, tuple(bad_grid) if bad_grid else None, want[0] == "accepted" and supported, r, meta, mj)
+    via_replace = bool(applied) and bad_grid is None and (case.get("seed", 0) % 2 == 1)
+    stage, kind, detail = classify_impl(raw, tuple(bad_grid) if bad_grid else None, want[0] == "accepted" and supported, r, meta, mj, via_replace=via_replace)
+    h[f"via_replace={via_replace}"] = 1
     h[f"outcome={stage}:{kind.split(':')[0]}"] = 1
     rc = {"kind": "raw", "raw": raw, "violations": applied, "bad_grid": list(bad_grid) if bad_grid else None, "meta": meta, "model": mj, "seed": case.get("seed", 0)}
     ok_kinds = {"GridInit", "ModelInit", "ValueError", "ModelInitilizationError", "GridInitializationError"}
